@@ -269,19 +269,23 @@ void zzExGCD(word d[], word da[], word db[], const word a[], size_t n,
 		{
 			// u <- u - v
 			zzSubW2(u + mv, nu - mv, zzSub2(u, v, mv));
-			if (zzAdd2(da, da1, m) || wwCmp(da, bb, m) >= 0)
-				zzSub2(da, bb, m);
+			// (da, db) <- (da + da1, db + db1), при необходимости -- (bb, aa)
+			// [da * aa - db * bb == u > 0 => (da > bb <=> db >= aa):
+			//  пара корректируется только совместно]
+			zzAdd2(da, da1, m);
 			if (zzAdd2(db, db1, n) || wwCmp(db, aa, n) >= 0)
-				zzSub2(db, aa, n);
+				zzSub2(da, bb, m), zzSub2(db, aa, n);
 		}
 		else
 		{
 			// v <- v - u
 			zzSubW2(v + nu, mv - nu, zzSub2(v, u, nu));
+			// (da1, db1) <- (da1 + da, db1 + db), при необходимости -- (bb, aa)
+			// [db1 * bb - da1 * aa == v >= 0 => (da1 >= bb => db1 >= aa):
+			//  пара корректируется только совместно]
+			zzAdd2(db1, db, n);
 			if (zzAdd2(da1, da, m) || wwCmp(da1, bb, m) >= 0)
-				zzSub2(da1, bb, m);
-			if (zzAdd2(db1, db, n) || wwCmp(db1, aa, n) >= 0)
-				zzSub2(db1, aa, n);
+				zzSub2(da1, bb, m), zzSub2(db1, aa, n);
 		}
 	} while (!wwIsZero(v, mv));
 	// d <- u
